@@ -39,7 +39,9 @@ KEY = ['COCC', 'CC=CCC', 'C1CC=CC=C1', 'C1=CCC=CC1', r'CC/C(C)=C(C)/CC', r'CC/C(
        # a hetero six-ring numbered before a benzene ring
        'C=CC=O', 'O=Cc1ccccc1', 'C1CCc2ccccc2O1',
        # a correction that a remap feeds (HalfCis -> 0.5 Cis) together with the correction itself
-       'CC=CCC=C(C)C', 'CC(C)=CC']
+       'CC=CCC=C(C)C', 'CC(C)=CC',
+       # a radical centre on an aromatic / triple-bonded carbon
+       '[c]1ccccc1', 'Cc1cc[c]cc1', '[CH2]C#C', 'C#[C]']
 GAS = GAS + KEY
 PT = ['C([Pt])C', 'C([Pt])([Pt])C', 'C([Pt])([Pt])([Pt])C', 'CC', 'CCC', 'CO', 'CCO', 'OC([Pt])C', 'CC([Pt])O', 'OCC([Pt])O',
       'C(=O)([Pt])O', 'C(=O)([Pt])C', 'C([Pt])([Pt])O', 'C([Pt])C([Pt])', 'C([Pt])([Pt])C([Pt])([Pt])', 'O([Pt])C', 'O([Pt])CC',
